@@ -350,8 +350,20 @@ def rule_r1(facts, rep, rid="C01-R1"):
         if "metadata_block" in asg:
             n_pairs += 1
             key = "reader|pair:%s|metadata-flag" % tv
-            if ec and "metadata_block" in ec[1]:
-                rep.ok(rid, key, "flag set at start and reset at end")
+            # the flag must be switched by constants: `true` on the start tag, `false` on the end tag
+            vals = {}
+            for enum_, table_ in (("Tag", rf["Tag"]), ("TagEnd", rf["TagEnd"])):
+                f_, m_ = table_
+                for vs_, arm_ in A.arms_of(m_):
+                    if any(_v(v_) == "%s::%s" % (enum_, tv) for v_ in vs_):
+                        for x_ in fb.walk(arm_["body"]):
+                            if x_.get("k") == "assign" and self_field(x_["l"]) == "metadata_block":
+                                vals[enum_] = fb.show(x_["r"])
+            if vals.get("Tag") != "true" or vals.get("TagEnd") not in ("false", None):
+                rep.violation(rid, key + "|constant", "the front-matter flag is set to `%s` on Tag::%s (and `%s` on the end tag) instead of the constants true/false: whenever it is false inside a "
+                              "metadata block, the block's text is sent to top_block() of an empty block stack (panic) or into the previous block" % (vals.get("Tag"), tv, vals.get("TagEnd")))
+            elif ec and "metadata_block" in ec[1]:
+                rep.ok(rid, key, "flag set to true at start and reset to false at end")
             else:
                 rep.violation(rid, key, "front-matter flag is set by Tag::%s and never reset by TagEnd::%s: all text after the front matter is swallowed" % (tv, tv))
     rep.floor(rid, "start/end pairs", n_pairs, 12)
@@ -1339,6 +1351,10 @@ def run(facts, rep, tier):
     rule_r6(facts, rep)
     rule_r7(facts, rep)
     rule_r8(facts, rep)
+    rep.rule("C01-R9", "= C07-R4: continuation lines of a list item are indented by the width of the marker actually printed; a fixed indent lets the later lines of items with wider markers "
+                       "(100., 1000.) fall out of the item, i.e. they are merged into a neighbour or turn into another kind of block.")
+    from . import c07
+    c07.rule_r4(facts, rep, "C01-R9")
     # front matter must not be invented either: the per-key metadata cache needs its remove edge (= C04-R3)
     rep.rule("C01-R6b", "= C04-R3 for the front-matter cache: the single-key update removes Graph.metadata[key] when the new text has no front matter (otherwise formatting re-adds a block the author deleted).")
     from . import c04
